@@ -2,14 +2,14 @@
 _CFG = ["avx2", "avx", "sse", "scalar", "nobmi2", "purego", "ia32"]
 PLAN = dict(
     level="exploration",
-    rule="sum: every length 0..1100 (x content kinds x guard placement) plus seeded long messages up to 64 KiB; history: seeded "
-         "random walks over {Write, Sum, Reset, MarshalBinary->UnmarshalBinary, Size} on one hash object, the digest compared with "
-         "the reference after every step (twice: Sum must not disturb the state); kdf: grid len(z) 0..200 x 17 key lengths x four "
+    rule="sum: every length 0..1100 (thorough: 0..4300) (x content kinds x guard placement) plus seeded long messages up to 64 KiB; history: seeded "
+         "random walks over {Write, Sum, Reset, MarshalBinary->UnmarshalBinary, refused imports, AppendBinary behind a non-empty prefix, the KDF method of the running object, Size} on one hash object, the digest compared with "
+         "the reference after every step (twice: Sum must not disturb the state); kdf: grid len(z) 0..200 x 17 key lengths (thorough: len(z) 0..330 x every key length 1..545 and four long ones) x four "
          "entry points (sm3.Kdf, kdf.Kdf fast path, kdf.Kdf generic with and without state export) plus seeded random pairs and the "
          "prefix law; all inputs in guard-page buffers. Non-trivial = not the empty message; distinct = distinct class keys "
          "(configuration | workload / len mod 64 / block-count class / output-block class with lane remainder / guard side)",
-    jobs=both("c01.sum", _CFG, shards=(2, 4), floor=100) + both("c01.history", _CFG, shards=(2, 4), floor=100)
-    + both("c01.kdf", _CFG, shards=(2, 4), floor=100),
+    jobs=both("c01.sum", _CFG, shards=(2, 8), floor=100) + both("c01.history", _CFG, shards=(2, 8), floor=100)
+    + both("c01.kdf", _CFG, shards=(2, 16), floor=100),
     assumptions=["reference SM3 in harness/ref/sm3 (validated against the GB/T 32905 examples at every child start)"],
 )
 
